@@ -101,77 +101,121 @@ func TestC20Registry(t *testing.T) {
 	}
 	// (b) life cycle on a virtual clock, compared with the registry model (component 60)
 	n := Scale(60, 1000)
+	leaked := false
 	for ci := 0; ci < n; ci++ {
 		r := root.Fork()
 		var hist [][]int64
-		synctest.Test(t, func(t *testing.T) {
-			reg := gometrics.NewRegistry()
-			mr, _ := gmreg.NewGoMetricsMetricRegistry(reg, "", "p", time.Second)
-			tr.Case(60)
-			var gauges []*polledGauge
-			started := false
-			total := func() int64 {
-				s := int64(0)
-				for _, g := range gauges {
-					s += atomic.LoadInt64(&g.n)
-				}
-				return s
-			}
-			steps := 4 + r.Intn(14)
-			for i := 0; i < steps; i++ {
-				before := total()
-				var op, arg int64
-				switch k := r.Intn(10); {
-				case k < 3:
-					op = 1
-					mr.Start()
-					started = true
-				case k < 5:
-					op = 2
-					mr.Stop()
-					started = false
-				case k < 8:
-					op, arg = 3, int64(1+r.Intn(4))
-					// move strictly inside a period so that ticks and operations never coincide
-					time.Sleep(time.Duration(arg) * time.Second)
-				default:
-					op, arg = 4, 1
-					g := &polledGauge{}
-					gauges = append(gauges, g)
-					mr.RegisterGauge(fmt.Sprintf("g%d", len(gauges)), g.supplier())
-				}
-				synctest.Wait()
-				polls := total() - before
-				pollers := int64(0)
-				if started {
-					pollers = 1
-				}
-				tr.Op(int(op), []int64{arg}, []int64{polls, pollers})
-				hist = append(hist, []int64{op, arg})
-				rep.Evaluations++
-				if op == 3 {
-					rep.Distinct("tick", fmt.Sprint(started, len(gauges), arg))
-					want := int64(0)
-					if started {
-						want = arg * int64(len(gauges))
+		// the bubble runs in a goroutine of its own, under a real-time watchdog: a poller that outlives Stop keeps the bubble from ever ending
+		bubbleDone := make(chan struct{})
+		go func() {
+			defer close(bubbleDone)
+			synctest.Test(t, func(t *testing.T) {
+				reg := gometrics.NewRegistry()
+				mr, _ := gmreg.NewGoMetricsMetricRegistry(reg, "", "p", time.Second)
+				tr.Case(60)
+				var gauges []*polledGauge
+				started := false
+				total := func() int64 {
+					s := int64(0)
+					for _, g := range gauges {
+						s += atomic.LoadInt64(&g.n)
 					}
-					if polls != want {
-						sig := "gometrics:polls"
-						if !started {
-							sig = "gometrics:polls-while-stopped"
-						} else if polls > want {
-							sig = "gometrics:extra-pollers"
+					return s
+				}
+				steps := 4 + r.Intn(14)
+				for i := 0; i < steps; i++ {
+					before := total()
+					var op, arg int64
+					switch k := r.Intn(12); {
+					case k >= 10:
+						// back-to-back life-cycle calls, nothing in between (not even a scheduling point): Start;Stop, Start;Start or Stop;Start.
+						// Each call is reported to the model on its own; only the last one is followed by a settle.
+						first, second := int64(1), int64(2)
+						switch r.Intn(3) {
+						case 1:
+							second = 1
+						case 2:
+							first, second = 2, 1
 						}
-						rep.Violate(sig, fmt.Sprintf("%d gauge polls in %d periods with %d gauges (started=%v), expected %d; history %v", polls, arg, len(gauges), started, want, hist), map[string]interface{}{"component": "gometrics-registry", "ops": hist})
+						call := func(o int64) {
+							if o == 1 {
+								mr.Start()
+								started = true
+							} else {
+								mr.Stop()
+								started = false
+							}
+						}
+						call(first)
+						pl := int64(0)
+						if started {
+							pl = 1
+						}
+						tr.Op(int(first), []int64{0}, []int64{0, pl})
+						hist = append(hist, []int64{first, 0})
+						rep.Evaluations++
+						op = second
+						call(second)
+					case k < 3:
+						op = 1
+						mr.Start()
+						started = true
+					case k < 5:
+						op = 2
+						mr.Stop()
+						started = false
+					case k < 8:
+						op, arg = 3, int64(1+r.Intn(4))
+						// move strictly inside a period so that ticks and operations never coincide
+						time.Sleep(time.Duration(arg) * time.Second)
+					default:
+						op, arg = 4, 1
+						g := &polledGauge{}
+						gauges = append(gauges, g)
+						mr.RegisterGauge(fmt.Sprintf("g%d", len(gauges)), g.supplier())
 					}
-				} else if polls != 0 {
-					rep.Violate("gometrics:polls-outside-tick", "gauges polled during Start/Stop/Register", map[string]interface{}{"ops": hist})
+					synctest.Wait()
+					polls := total() - before
+					pollers := int64(0)
+					if started {
+						pollers = 1
+					}
+					tr.Op(int(op), []int64{arg}, []int64{polls, pollers})
+					hist = append(hist, []int64{op, arg})
+					rep.Evaluations++
+					if op == 3 {
+						rep.Distinct("tick", fmt.Sprint(started, len(gauges), arg))
+						want := int64(0)
+						if started {
+							want = arg * int64(len(gauges))
+						}
+						if polls != want {
+							sig := "gometrics:polls"
+							if !started {
+								sig = "gometrics:polls-while-stopped"
+							} else if polls > want {
+								sig = "gometrics:extra-pollers"
+							}
+							rep.Violate(sig, fmt.Sprintf("%d gauge polls in %d periods with %d gauges (started=%v), expected %d; history %v", polls, arg, len(gauges), started, want, hist), map[string]interface{}{"component": "gometrics-registry", "ops": hist})
+						}
+					} else if polls != 0 {
+						rep.Violate("gometrics:polls-outside-tick", "gauges polled during Start/Stop/Register", map[string]interface{}{"ops": hist})
+					}
 				}
-			}
-			tr.End()
-			mr.Stop()
-			synctest.Wait()
-		})
+				tr.End()
+				mr.Stop()
+				synctest.Wait()
+			})
+		}()
+		select {
+		case <-bubbleDone:
+		case <-time.After(20 * time.Second):
+			rep.Violate("gometrics:poller-outlives-stop", fmt.Sprintf("after the final Stop a poller goroutine keeps running (the scenario never quiesces); history %v", hist), map[string]interface{}{"component": "gometrics-registry", "ops": hist})
+			leaked = true
+		}
+		if leaked {
+			break // the stray poller spins on the virtual clock: no further scenarios in this process
+		}
 	}
 	// (c) datadog registry over a loopback UDP socket (real time; the dogstatsd client is outside the model)
 	func() {
